@@ -21,8 +21,10 @@ mod c01_search;
 #[cfg(any(kani, test))]
 mod c03_terminal;
 #[cfg(any(kani, test))]
-mod c04_ops;
+pub mod c04_ops;
 #[cfg(any(kani, test))]
 mod c02_cut;
 #[cfg(any(kani, test))]
 mod c07_indent;
+#[cfg(any(kani, test))]
+mod c04_insert;
